@@ -239,8 +239,8 @@ def check_mesh_level(case):
         if len(sub) != 2 ** ((k + 1) ** 2) or {tuple(m.pattern) for m in sub} != {p} or len({m.shading for m in sub}) != len(sub):
             return BAD("mesh_of_length_patt", {"p": list(p)})
         ranks = [m.rank() for m in sub]
-        if ranks != list(range(len(sub))):
-            return BAD("mesh_of_length_rank_order", {"p": list(p)})
+        if sorted(ranks) != list(range(len(sub))):
+            return BAD("mesh_of_length_ranks", {"p": list(p)})
     return OK(k >= 1, f"mesh_level{k}", key=f"mesh_level{k}")
 
 
